@@ -383,6 +383,36 @@ def a_r1_getattr(schema: Schema, rep: Report):
         if isinstance(n, ast.Raise):
             ok = n.exc is not None and ast.unparse(n.exc).startswith("AttributeError")
             rep.check("A-R1", "__getattr__:raises-AttributeError", ok, f"raises {ast.unparse(n.exc) if n.exc else 're-raise'}" if not ok else "", f"{rel}:{n.lineno}")
+    # a proxied read that succeeds is the answer, whatever its value (None included): no path passes a successful
+    # getattr(<sub-aggregate>, attr) and then leaves without returning it
+    from . import paths as _PT
+    from .flat import flat as _flat
+    from .match import Expander as _Ex
+
+    ffn = _flat(p, BASE, fn, schema.aggregate)
+    try:
+        gp = _PT.enumerate_paths(ffn, None, _Ex(ffn), resolve=False)
+    except AnalysisError as e:
+        gp = None
+        rep.note(f"A-R1 undecided: {e}")
+    if gp is not None:
+        gcfg = gp.cfg
+        attrp = params_of(fn)[1]
+        rnodes = [n for n in gcfg.nodes if n.stmt is not None and n.kind not in ("join", "handlers") and any(isinstance(c.func, ast.Name) and c.func.id == "getattr" and len(c.args) == 2 and text(c.args[1]) == attrp for c in n.calls())]
+        lost = None
+        for rn in rnodes:
+            for q in gp:
+                i = q.index_of(rn.id)
+                if i is None:
+                    continue
+                # did the read raise on this path?
+                raised = any(getattr(cw, "pos", -1) == i and cw[1] is True and any(a.startswith("raises(") for a in cw[0].atoms()) for cw in q.conds)
+                if raised:
+                    continue
+                if q.outcome != "return":
+                    lost = _PT.simple_conds([cw for cw in q.conds if not any(a.startswith("raises(") for a in cw[0].atoms())])
+        if rnodes:
+            rep.check("A-R1", "__getattr__:found-value-is-returned", lost is None, f"a path reads the attribute from a sub-aggregate successfully and still ends without returning it (taken when {lost}): a declared attribute whose value is None is reported as missing (AttributeError / hasattr False) when read through an ancestor" if lost is not None else "", f"{rel}:{fn.lineno}")
     # iteration domain: non-repeated sub-aggregates of the instance
     loops = [s for s in own_statements(fn) if isinstance(s, ast.For)]
     ok = bool(loops) and text(loops[0].iter) in ("self.subaggregates", "self.__class__.subaggregates", "type(self).subaggregates")
@@ -417,6 +447,22 @@ def a_r2_r3_properties(schema: Schema, rep: Report):
     for cname, ci in schema.exported().items():
         for definer, fn in properties_of(schema, ci):
             nprops += 1
+            # document order: when the list a shortcut returns is filled inside nested loops and one of them walks the
+            # members (`for x in self`), that loop is the outermost one - an outer loop over a table of wrapper classes
+            # groups the result by class instead
+            ret_names = {r_.value.id for r_ in own_nodes(fn) if isinstance(r_, ast.Return) and isinstance(r_.value, ast.Name)}
+            for ap in [c_ for c_ in own_nodes(fn) if isinstance(c_, ast.Call) and isinstance(c_.func, ast.Attribute) and c_.func.attr in ("append", "extend") and isinstance(c_.func.value, ast.Name) and c_.func.value.id in ret_names]:
+                chain = []
+                par_ = parent(ap)
+                while par_ is not None and par_ is not fn:
+                    if isinstance(par_, ast.For):
+                        chain.append(par_)
+                    par_ = parent(par_)
+                over_self = [lp for lp in chain if text(lp.iter) == "self"]
+                if over_self and len(chain) > 1:
+                    outer = chain[-1]
+                    ok_ = text(outer.iter) == "self"
+                    rep.check("A-R3", f"{cname}.{fn.name}:document-order", ok_, f"the members are walked inside an outer loop over {text(outer.iter)[:50]}: the result is grouped by that table instead of following the order of the members in the document" if not ok_ else "", f"{definer.mod.relpath}:{outer.lineno}")
             try:
                 nr = Narrower(schema, ci, definer, fn, rep).run()
             except AnalysisError as e:
